@@ -214,6 +214,8 @@ pub struct PendingRequest {
     pub stream: bool,
     /// for cancel / close / forget: which jobs the request selects (and the status filter)
     pub sel: Option<(Sel, Vec<hyperqueue::client::status::Status>)>,
+    /// for cancel: the unfinished tasks of every job at the moment the request was sent
+    pub unfinished_at_send: BTreeMap<u32, Vec<u32>>,
 }
 
 /// Job selector of a request, in comparable form
@@ -758,6 +760,7 @@ impl World {
             sent_step: step,
             stream,
             sel: None,
+            unfinished_at_send: BTreeMap::new(),
         });
     }
 
